@@ -856,3 +856,110 @@ func TestVerifC10Process(t *testing.T) {
 	wg.Wait()
 	en.Done(true)
 }
+
+// TestVerifC10Wedged: an in-process client writes a bad answer (unknown name, duplicate, garbage, oversize) and then
+// never returns: it ignores the cancellation of its context and the closing of its input. The pending request still
+// gets exactly one callback with an error, further sends are refused, the runner reports the client as not running,
+// and both waiting for completion and stopping return in bounded time (the runner gives up on the process).
+func TestVerifC10Wedged(t *testing.T) {
+	en := verifkit.NewEnum(t, "C10Wedged")
+	type row struct {
+		Fault string `json:"fault"`
+	}
+	release := make(chan struct{})
+	defer close(release)
+	var mu sync.Mutex
+	var wg sync.WaitGroup
+	for _, fault := range []string{"unknown", "duplicate", "garbage", "oversize"} {
+		wg.Add(1)
+		go func(fault string) {
+			defer wg.Done()
+			r := row{fault}
+			client := func(ctx context.Context, _ []string, in io.ReadCloser, out, _ io.WriteCloser) error {
+				// (first take both requests, so that they are pending when the bad answer arrives)
+				for i := 0; i < 2; i++ {
+					req := &conformancev1.ClientCompatRequest{}
+					if err := internal.ReadDelimitedMessage(in, req, "runner", 20*time.Second, 1<<20); err != nil {
+						break
+					}
+				}
+				go func() { _, _ = io.Copy(io.Discard, in) }()
+				switch fault {
+				case "duplicate":
+					_, _ = out.Write(vfAnswerBytes(vfAnswer{Kind: "valid", Name: 0}))
+					_, _ = out.Write(vfAnswerBytes(vfAnswer{Kind: "valid", Name: 0}))
+				default:
+					_, _ = out.Write(vfAnswerBytes(vfAnswer{Kind: fault}))
+				}
+				<-release // wedged: neither ctx nor stdin make it return
+				return nil
+			}
+			runner, err := runClient(context.Background(), runInProcess([]string{"verif-wedged-client"}, client))
+			if err != nil {
+				return
+			}
+			var cbMu sync.Mutex
+			fired := map[int][]error{}
+			sendErrs := map[int]error{}
+			for i := 0; i < 2; i++ {
+				i := i
+				sendErrs[i] = runner.sendRequest(&conformancev1.ClientCompatRequest{TestName: vfC10Name(i)}, func(_ string, _ *conformancev1.ClientCompatResponse, err error) {
+					cbMu.Lock()
+					fired[i] = append(fired[i], err)
+					cbMu.Unlock()
+				})
+			}
+			var viol error
+			bound := 25 * time.Second
+			waited := make(chan error, 1)
+			start := time.Now()
+			go func() { runner.closeSend(); waited <- runner.waitForResponses() }()
+			select {
+			case werr := <-waited:
+				if werr == nil {
+					viol = verifkit.Violf("wedged-fault-not-reported", "client fault %q but waitForResponses returned nil", fault)
+				}
+			case <-time.After(bound):
+				viol = verifkit.Violf("wedged-wait-hang", "waitForResponses did not return within %v after the client wrote a bad answer (%s) and then never returned", bound, fault)
+			}
+			if viol == nil {
+				cbMu.Lock()
+				// request 1 was never answered: exactly one callback, with an error
+				if sendErrs[0] != nil || sendErrs[1] != nil {
+					viol = verifkit.Violf("wedged-send-refused", "sends before any answer were refused: %v", sendErrs)
+				} else if len(fired[1]) != 1 || fired[1][0] == nil {
+					viol = verifkit.Violf("wedged-callback", "the unanswered request got callbacks %v, want exactly one with an error (fault %s)", fired[1], fault)
+				}
+				if len(fired[0]) != 1 {
+					viol = verifkit.Violf("wedged-callback", "request 0 got %d callbacks, want exactly one (fault %s)", len(fired[0]), fault)
+				}
+				cbMu.Unlock()
+			}
+			if viol == nil && runner.isRunning() {
+				viol = verifkit.Violf("wedged-still-running", "the runner gave up on the client (%s) after %v but still reports it as running", fault, time.Since(start))
+			}
+			if viol == nil {
+				if err := runner.sendRequest(&conformancev1.ClientCompatRequest{TestName: "verif/c10/late"}, func(string, *conformancev1.ClientCompatResponse, error) {}); err == nil {
+					viol = verifkit.Violf("wedged-send-accepted", "a send after the client failed (%s) was accepted", fault)
+				}
+			}
+			if viol == nil {
+				stopped := make(chan struct{})
+				go func() { defer close(stopped); runner.stop() }()
+				select {
+				case <-stopped:
+				case <-time.After(bound):
+					viol = verifkit.Violf("wedged-stop-hang", "stop() did not return within %v (%s)", bound, fault)
+				}
+			}
+			mu.Lock()
+			defer mu.Unlock()
+			en.Rec.Observe(r, []string{"fault:" + fault}, true)
+			if viol != nil {
+				en.Fail(r, viol)
+			}
+		}(fault)
+	}
+	wg.Wait()
+	en.Done(true)
+}
